@@ -71,4 +71,20 @@ TEXTS["C10"] = {
     "note": TB + " SHA-256 collision resistance is not assumed (reductions); receipt/tx hashing (protobuf) is not modelled.",
     "technique": "Lean 4 theorems (permutation invariance, collision reductions) + bit-exact differential correspondence + metamorphic monitors",
 }
+TEXTS["C18"] = {
+    "text": "Proved on the model of generateBlock for every pool state: a batch never exceeds the configured size whenever the ready counter is positive (C18_batch_size_bound, by a loop invariant over the "
+            "priority-index iteration incl. the skipped-transaction drain loop). Gap-freeness, once-only, given-only and consecutive heights are decided by the model correspondence on the real mempoolImpl "
+            "(all observable outputs and the sizes of every internal index after every step) plus a model-free checker of the batch stream. Known finding: after commits of blocks the node never held the cached "
+            "commit nonce is stale and an old transaction is batched below the committed nonce.",
+    "note": TB + " time.Now() inside the pool is handled by logical arrival groups (harness sleeps between groups and derives the eviction duration from its own clock).",
+    "technique": "Lean 4 loop-invariant theorem over the executable pool model + differential correspondence + batch-stream checker",
+}
+TEXTS["C19"] = {
+    "text": "Proved on the model: the age rule evicts only transactions that are held, old, not batched, not ready and parked (C19_evict_only_old_nonready_nonbatched, C19_evict_count), GetTransaction returns the "
+            "item stored under the hash's pointer (C19_getTx_from_items), HasPendingRequest is the ready counter (C19_pending_flag_is_counter). No-silent-loss, pending-nonce exactness and bounded liveness "
+            "(60 rounds of generate+commit) are decided by correspondence and a model-free monitor over GetTransaction of every hash ever given. Two defects found here were repaired by fix: commits "
+            "(eviction corrupted other accounts' nonce indices; GetTransaction returned a superseding tx); known finding: pending nonce stale after foreign commits.",
+    "note": TB,
+    "technique": "Lean 4 theorems over the executable pool model + differential correspondence + no-loss monitor",
+}
 NOT_YET = {}
